@@ -62,9 +62,12 @@ def derived_schema(ver):
  <xs:simpleType name="us"><xs:union memberTypes="xs:int xs:string"/></xs:simpleType>
  <xs:simpleType name="twoWords"><xs:restriction base="us"><xs:pattern value="[a-z]+ [a-z]+|[0-9]+"/></xs:restriction></xs:simpleType>
  <xs:simpleType name="lead"><xs:restriction base="us"><xs:pattern value="  [a-z]+|[0-9]+"/></xs:restriction></xs:simpleType>
+ <xs:simpleType name="durs"><xs:list itemType="xs:duration"/></xs:simpleType>
+ <xs:simpleType name="stamps"><xs:list itemType="xs:dateTime"/></xs:simpleType>
  <xs:simpleType name="money"><xs:restriction base="xs:decimal"><xs:totalDigits value="4"/><xs:fractionDigits value="2"/></xs:restriction></xs:simpleType>
  <xs:element name="small" type="small"/><xs:element name="smaller" type="smaller"/><xs:element name="word" type="word"/><xs:element name="en" type="en"/>
  <xs:element name="ilist" type="ilist"/><xs:element name="ilist2" type="ilist2"/><xs:element name="u" type="u"/><xs:element name="money" type="money"/>
+ <xs:element name="durs" type="durs"/><xs:element name="stamps" type="stamps"/>
  <xs:element name="twoWords" type="twoWords"/><xs:element name="lead" type="lead"/></xs:schema>''')
 
 
@@ -83,9 +86,12 @@ REF = {
     # (xs:int collapses, xs:string preserves)
     'twoWords': lambda t: (isint(t.strip(' \t\n\r')) and re.fullmatch(r'[0-9]+', re.sub(r'[ \t\n\r]+', ' ', t).strip(' ')) is not None and -2**31 <= int(t) < 2**31) or (not isint(t.strip(' \t\n\r')) and re.fullmatch(r'[a-z]+ [a-z]+', t) is not None),
     'lead': lambda t: (isint(t.strip(' \t\n\r')) and re.fullmatch(r'[0-9]+', t.strip(' \t\n\r')) is not None and -2**31 <= int(t) < 2**31) or (not isint(t.strip(' \t\n\r')) and re.fullmatch(r'  [a-z]+', t) is not None),
+    'durs': lambda t: all(re.fullmatch(r'-?P(?=.)([0-9]+Y)?([0-9]+M)?([0-9]+D)?(T(?=.)([0-9]+H)?([0-9]+M)?([0-9]+(\.[0-9]+)?S)?)?', x) is not None for x in t.split(' ')) if t else True,
+    'stamps': lambda t: all(re.fullmatch(r'-?[0-9]{4}-[0-9]{2}-[0-9]{2}T[0-9]{2}:[0-9]{2}:[0-9]{2}(\.[0-9]+)?(Z|[+-][0-9]{2}:[0-9]{2})?', x) is not None for x in t.split(' ')) if t else True,
     'money': lambda t: re.fullmatch(r'[+-]?([0-9]+(\.[0-9]*)?|\.[0-9]+)', t) is not None and sum(digits(t)) <= 4 and digits(t)[1] <= 2,
 }
 UNION_DECODE = lambda t: int(t) if REF['small'](t) else (t in ('true', '1')) if t in ('true', 'false', '1', '0') else t
+DVALUES = ['P1Y0M PT60S', 'P13M  P1DT24H', 'PT1.50S', 'P1Y', '2020-01-01T24:00:00 2020-01-01T10:00:00+00:00', '2020-01-01T00:00:00.120', '2020-01-01T00:00:00Z']
 VALUES = ['ab cd', 'ab  cd', ' ab cd', 'ab cd ', '  ab', ' ab', '12', ' 12 ', 'ab', '0', '5', '9', '10', '99', '100', '101', '-1', '+7', '07', 'ab', 'a', 'abc', 'abcd', 'abcde', 'true', 'false', '1', '', '1 2', '1 2 3', '100 0', '101 1', 'x y',
           '12.34', '1.234', '123.4', '12345', '0.10', '00012.30', '.5', '1e1', 'a b']
 
@@ -93,7 +99,7 @@ VALUES = ['ab cd', 'ab  cd', ' ab cd', 'ab cd ', '  ab', ' ab', '12', ' 12 ', 'a
 def eval_derived(args):
     ver, name, v = args
     s = _S.setdefault(ver, derived_schema(ver))
-    t = v if name not in ('word', 'en', 'ilist', 'ilist2', 'u', 'small', 'smaller', 'money') else re.sub(r' +', ' ', re.sub(r'[\t\n\r]', ' ', v)).strip(' ')
+    t = v if name not in ('word', 'en', 'ilist', 'ilist2', 'u', 'small', 'smaller', 'money', 'durs', 'stamps') else re.sub(r' +', ' ', re.sub(r'[\t\n\r]', ' ', v)).strip(' ')
     exp = REF[name](t)
     doc = f'<{name}>{v}</{name}>'
     try: got = s.is_valid(doc)
@@ -102,6 +108,10 @@ def eval_derived(args):
     if got is True and exp and name == 'u':
         d = s.decode(doc)
         if d != UNION_DECODE(t) or type(d) is not type(UNION_DECODE(t)): out.update(ok=False, detail=f'union decoded {d!r}, first matching member gives {UNION_DECODE(t)!r}')
+    if got is True and exp and name in ('durs', 'stamps') and t:
+        # without typed decoding (datetime_types is off by default) dates and durations are reported as their normalised text, item by item
+        d = s.decode(doc)
+        if d != t.split(' '): out.update(ok=False, detail=f'list decoded {d!r}, the normalised item texts are {t.split(" ")!r}')
     if got is True and exp and name == 'ilist' and t:
         d = s.decode(doc)
         if d != ([int(x) for x in t.split(' ')] if t else []): out.update(ok=False, detail=f'list decoded {d!r}')
@@ -128,7 +138,7 @@ def run(tier, seed, open_findings):
     dbad = [b for r in pmap(eval_digits, [nums[i::16] for i in range(16)], procs=16) for b in r]
     out.append(result('C02.count_digits', f'{len(nums)} spellings of decimals with <= 3 significant digits and exponent -4..2', len(nums),
                       [dict(case=dict(number=b['number']), observed=b['got'], required=b['want']) for b in dbad], exhaustive=True, samples=[dict(number=nums[10])]))
-    cases = [(ver, name, v) for ver in ('1.0', '1.1') for name in REF for v in VALUES]
+    cases = [(ver, name, v) for ver in ('1.0', '1.1') for name in REF for v in (DVALUES if name in ('durs', 'stamps') else VALUES)]
     res = pmap(eval_derived, cases)
     from .C02 import classify
     fails = []; known = {}
